@@ -59,34 +59,60 @@ Lemma is_nil_true {A} (l : list A) : is_nil l = true -> l = [].
 Proof. destruct l; [reflexivity|discriminate]. Qed.
 
 (* ------------------------------------------------------------------ the update paths *)
-Lemma set_core_plain g k id pend kw :
-  set_core g k id pend false kw =
+(* what the update paths do when nobody raises *)
+Definition set_quiet (g : cfg) (k : cls) (id : Z) (pend : kwargs) (fired : list Z) (kw : kwargs) : ures :=
   let L := sel SUpdate (tab g k) in
   let tr1 := sig_events SUpdate k (Some id) L kw in
   let kw1 := final_kw SUpdate L kw in
   if negb (validate kw1) then
-    {| u_out := Exn XInvalid; u_tr := tr1; u_pend := pend; u_upds := [] |}
+    {| u_out := Exn XInvalid; u_tr := tr1; u_pend := pend; u_fired := fired; u_upds := [] |}
   else if is_lazy k then
-    {| u_out := Done; u_tr := tr1; u_pend := kw_update pend kw1; u_upds := [] |}
+    {| u_out := Done; u_tr := tr1; u_pend := kw_update pend kw1; u_fired := fired; u_upds := [] |}
   else
     let w := sort_cols kw1 in
     {| u_out := Done;
        u_tr := tr1 ++ (if is_nil w then [] else [EWrite (WUpdate k id w)]) ++ after_part (tab g k) SUpdated k id;
-       u_pend := pend;
+       u_pend := pend; u_fired := fired;
        u_upds := if is_nil w then [] else [w] |}.
-Proof. reflexivity. Qed.
+
+Lemma set_core_ok g k id pend fired kw :
+  succeeded (u_out (set_core g k id pend fired false kw)) = true ->
+  set_core g k id pend fired false kw = set_quiet g k id pend fired kw.
+Proof.
+  unfold set_core, set_quiet. cbn [negb andb].
+  destruct (raiser fired (sel SUpdate (tab g k))); cbn [is_some]; [cbn [u_out succeeded]; discriminate|].
+  destruct (negb (validate _)); [reflexivity|]. destruct (is_lazy k); [reflexivity|].
+  cbn [u_out]. destruct (p_raised (after_x (tab g k) fired SUpdated k id)) eqn:E; [cbn [succeeded]; discriminate|].
+  intros _. destruct (after_x_quiet _ _ _ _ _ E) as [H1 H2]. rewrite H1, H2. reflexivity.
+Qed.
+
+Definition sync_quiet (g : cfg) (k : cls) (id : Z) (pend : kwargs) (fired : list Z) : ures :=
+  if is_nil pend then {| u_out := Done; u_tr := []; u_pend := pend; u_fired := fired; u_upds := [] |}
+  else
+    let w := sort_cols pend in
+    {| u_out := Done;
+       u_tr := [EWrite (WUpdate k id w)] ++ after_part (tab g k) SUpdated k id;
+       u_pend := []; u_fired := fired; u_upds := [w] |}.
+Lemma sync_core_ok g k id pend fired :
+  succeeded (u_out (sync_core g k id pend fired)) = true -> sync_core g k id pend fired = sync_quiet g k id pend fired.
+Proof.
+  unfold sync_core, sync_quiet. destruct (is_nil pend); [reflexivity|].
+  cbn [u_out]. destruct (p_raised (after_x (tab g k) fired SUpdated k id)) eqn:E; [cbn [succeeded]; discriminate|].
+  intros _. destruct (after_x_quiet _ _ _ _ _ E) as [H1 H2]. rewrite H1, H2. reflexivity.
+Qed.
 
 (* an attribute assignment is set() of the one-entry dict -- whatever the
-   receivers do to its key set *)
-Lemma assign_core_is_set g k id pend c v :
-  assign_core g k id pend c v = set_core g k id pend false [(c, v)].
+   receivers do to its key set, and whoever raises *)
+Lemma assign_core_is_set g k id pend fired c v :
+  assign_core g k id pend fired c v = set_core g k id pend fired false [(c, v)].
 Proof.
-  unfold assign_core, set_core.
+  unfold assign_core, set_core. cbn [negb andb].
+  destruct (raiser fired (sel SUpdate (tab g k))); cbn [is_some]; [reflexivity|].
   remember (final_kw SUpdate (sel SUpdate (tab g k)) [(c, v)]) as d eqn:Hd.
   destruct (negb (Nat.eqb (length d) 1) || negb (kw_has c d)) eqn:Edel.
   - (* delegated *)
-    destruct (negb (validate d)); cbn [u_out u_tr u_pend u_upds]; [rewrite app_nil_r; reflexivity|].
-    destruct (is_lazy k); cbn [u_out u_tr u_pend u_upds]; [rewrite app_nil_r; reflexivity|reflexivity].
+    destruct (negb (validate d)); cbn [u_out u_tr u_pend u_fired u_upds]; [rewrite app_nil_r; reflexivity|].
+    destruct (is_lazy k); cbn [u_out u_tr u_pend u_fired u_upds]; [rewrite app_nil_r; reflexivity|reflexivity].
   - apply orb_false_iff in Edel. destruct Edel as [E1 E2].
     apply negb_false_iff in E1. apply negb_false_iff in E2.
     destruct d as [|[c0 v0] [|? ?]]; simpl in E1; try discriminate.
@@ -100,6 +126,22 @@ Qed.
 Lemma step_assign_is_set g st k id c v : step g st (OAssign k id c v) = step g st (OSet k id [(c, v)]).
 Proof. unfold step, with_handle. destruct (h_get id _); [|reflexivity]. rewrite assign_core_is_set. reflexivity. Qed.
 
+(* a creation / a destroy in which nobody raises *)
+Lemma create_ok {K} tab fired (k : K) id L (hs hs' : list (Z * hstate)) :
+  succeeded (if negb (p_raised (posts_x fired SCreate k id L))
+                && negb (p_raised (after_x tab (p_fired (posts_x fired SCreate k id L)) SCreated k id))
+             then Done else Exn XBoom) = true ->
+  p_tr (posts_x fired SCreate k id L) = run_posts SCreate k id (posts SCreate L)
+  /\ p_tr (after_x tab (p_fired (posts_x fired SCreate k id L)) SCreated k id) = after_part tab SCreated k id
+  /\ negb (p_raised (posts_x fired SCreate k id L))
+      && negb (p_raised (after_x tab (p_fired (posts_x fired SCreate k id L)) SCreated k id)) = true.
+Proof.
+  destruct (p_raised (posts_x fired SCreate k id L)) eqn:E1; [simpl; discriminate|].
+  destruct (p_raised (after_x tab _ SCreated k id)) eqn:E2; [simpl; discriminate|]. intros _.
+  destruct (posts_x_quiet _ _ _ _ _ E1) as [H1 _]. destruct (after_x_quiet _ _ _ _ _ E2) as [H2 _].
+  rewrite H1, H2. repeat split.
+Qed.
+
 (* ------------------------------------------------------------------ a successful step is the documented one *)
 Lemma step_spec g st o :
   succeeded (snd (fst (step g st o))) = true -> snd (step g st o) = spec_events g st o.
@@ -107,24 +149,34 @@ Proof.
   destruct o as [k kw0|k id c v|k id kw0|k id|k id|k id fr|k];
     [|rewrite step_assign_is_set; change (spec_events g st (OAssign k id c v)) with (spec_events g st (OSet k id [(c, v)]));
       set (kw0 := [(c, v)])| | | | |]; unfold step.
-  - destruct (fill_defaults all_cols _) as [kw2|] eqn:Hf; [|simpl; discriminate].
-    destruct (negb (validate kw2)); [simpl; discriminate|]. simpl. intros _.
-    rewrite (fill_defaults_with _ _ Hf). reflexivity.
+  - destruct (raiser _ (sel SCreate (tab g k))); [simpl; discriminate|].
+    destruct (fill_defaults all_cols _) as [kw2|] eqn:Hf; [|simpl; discriminate].
+    destruct (negb (validate kw2)); [simpl; discriminate|]. cbn [fst snd]. intros Hs.
+    destruct (create_ok _ _ _ _ _ (k_hs (ks st k)) (k_hs (ks st k)) Hs) as [H1 [H2 _]].
+    rewrite H1, H2, (fill_defaults_with _ _ Hf). reflexivity.
   - unfold with_handle, spec_events.
     destruct (h_get id (k_hs (ks st k))) as [h|] eqn:Hh; [|simpl; discriminate].
-    rewrite set_core_plain. cbv zeta. unfold commit_ures.
+    unfold commit_ures. cbn [fst snd]. intros Hs. rewrite (set_core_ok _ _ _ _ _ _ Hs). unfold set_quiet.
+    rewrite (set_core_ok _ _ _ _ _ _ Hs) in Hs. unfold set_quiet in Hs. revert Hs.
     destruct (negb (validate _)); [simpl; discriminate|].
     destruct (is_lazy k); simpl; intros _; rewrite ?app_nil_r; reflexivity.
   - unfold with_handle, spec_events.
     destruct (h_get id (k_hs (ks st k))) as [h|] eqn:Hh; [|simpl; discriminate].
-    rewrite set_core_plain. cbv zeta. unfold commit_ures.
+    unfold commit_ures. cbn [fst snd]. intros Hs. rewrite (set_core_ok _ _ _ _ _ _ Hs). unfold set_quiet.
+    rewrite (set_core_ok _ _ _ _ _ _ Hs) in Hs. unfold set_quiet in Hs. revert Hs.
     destruct (negb (validate _)); [simpl; discriminate|].
     destruct (is_lazy k); simpl; intros _; rewrite ?app_nil_r; reflexivity.
   - unfold with_handle, spec_events, pend_of.
     destruct (h_get id (k_hs (ks st k))) as [h|] eqn:Hh; [|simpl; discriminate].
-    unfold sync_core, commit_ures. destruct (is_nil (h_pend h)); simpl; reflexivity.
+    unfold commit_ures. cbn [fst snd]. intros Hs. rewrite (sync_core_ok _ _ _ _ _ Hs). unfold sync_quiet.
+    destruct (is_nil (h_pend h)); simpl; reflexivity.
   - unfold with_handle, spec_events.
-    destruct (h_get id (k_hs (ks st k))) as [h|] eqn:Hh; [|simpl; discriminate]. reflexivity.
+    destruct (h_get id (k_hs (ks st k))) as [h|] eqn:Hh; [|simpl; discriminate].
+    destruct (raiser _ (sel SDestroy (tab g k))); [simpl; discriminate|]. cbn [fst snd].
+    destruct (p_raised (posts_x _ SDestroy k id _)) eqn:E1; [simpl; discriminate|].
+    destruct (p_raised (after_x _ _ SDestroyed k id)) eqn:E2; [simpl; discriminate|]. intros _.
+    destruct (posts_x_quiet _ _ _ _ _ E1) as [H1 _]. destruct (after_x_quiet _ _ _ _ _ E2) as [H2 _].
+    rewrite H1, H2. reflexivity.
   - destruct (tbl_has id _); reflexivity.
   - reflexivity.
 Qed.
@@ -146,31 +198,36 @@ Proof.
     [|rewrite step_assign_is_set; change (spec_table g st (OAssign k id c v)) with (spec_table g st (OSet k id [(c, v)]));
       change (op_cls (OAssign k id c v)) with (op_cls (OSet k id [(c, v)])); set (kw0 := [(c, v)])| | | | |];
     unfold step; simpl op_cls.
-  - destruct (fill_defaults all_cols _) as [kw2|] eqn:Hf; [|simpl; discriminate].
-    destruct (negb (validate kw2)); [simpl; discriminate|]. simpl. intros _.
+  - destruct (raiser _ (sel SCreate (tab g k))); [simpl; discriminate|].
+    destruct (fill_defaults all_cols _) as [kw2|] eqn:Hf; [|simpl; discriminate].
+    destruct (negb (validate kw2)); [simpl; discriminate|]. cbn [fst snd]. intros _.
     rewrite ks_set_same, (fill_defaults_with _ _ Hf). reflexivity.
   - unfold with_handle, spec_table.
     destruct (h_get id (k_hs (ks st k))) as [h|] eqn:Hh; [|simpl; discriminate].
-    rewrite set_core_plain. cbv zeta. unfold commit_ures.
+    unfold commit_ures. cbn [fst snd]. intros Hs. rewrite (set_core_ok _ _ _ _ _ _ Hs). unfold set_quiet.
+    rewrite (set_core_ok _ _ _ _ _ _ Hs) in Hs. unfold set_quiet in Hs. revert Hs.
     destruct (negb (validate _)); [simpl; discriminate|].
     destruct (is_lazy k); simpl; intros _; rewrite ks_set_same; [reflexivity|].
     destruct (is_nil (sort_cols _)) eqn:E; simpl; [|reflexivity].
     apply is_nil_true in E. rewrite E, tbl_update_nil. reflexivity.
   - unfold with_handle, spec_table.
     destruct (h_get id (k_hs (ks st k))) as [h|] eqn:Hh; [|simpl; discriminate].
-    rewrite set_core_plain. cbv zeta. unfold commit_ures.
+    unfold commit_ures. cbn [fst snd]. intros Hs. rewrite (set_core_ok _ _ _ _ _ _ Hs). unfold set_quiet.
+    rewrite (set_core_ok _ _ _ _ _ _ Hs) in Hs. unfold set_quiet in Hs. revert Hs.
     destruct (negb (validate _)); [simpl; discriminate|].
     destruct (is_lazy k); simpl; intros _; rewrite ks_set_same; [reflexivity|].
     destruct (is_nil (sort_cols _)) eqn:E; simpl; [|reflexivity].
     apply is_nil_true in E. rewrite E, tbl_update_nil. reflexivity.
   - unfold with_handle, spec_table, pend_of.
     destruct (h_get id (k_hs (ks st k))) as [h|] eqn:Hh; [|simpl; discriminate].
-    unfold sync_core, commit_ures. destruct (is_nil (h_pend h)) eqn:E; simpl; intros _; rewrite ks_set_same; simpl.
+    unfold commit_ures. cbn [fst snd]. intros Hs. rewrite (sync_core_ok _ _ _ _ _ Hs). unfold sync_quiet.
+    destruct (is_nil (h_pend h)) eqn:E; simpl; rewrite ks_set_same; simpl.
     + apply is_nil_true in E. rewrite E, sort_cols_nil, tbl_update_nil. reflexivity.
     + reflexivity.
   - unfold with_handle, spec_table.
     destruct (h_get id (k_hs (ks st k))) as [h|] eqn:Hh; [|simpl; discriminate].
-    simpl. intros _. rewrite ks_set_same. reflexivity.
+    destruct (raiser _ (sel SDestroy (tab g k))); [simpl; discriminate|]. cbn [fst snd].
+    intros _. rewrite ks_set_same. reflexivity.
   - destruct (tbl_has id _); reflexivity.
   - reflexivity.
 Qed.
@@ -184,16 +241,19 @@ Proof.
   - rewrite step_assign_is_set. change (spec_pend g st (OAssign k id c v)) with (spec_pend g st (OSet k id [(c, v)])).
     unfold step, with_handle, spec_pend, pend_of.
     destruct (h_get id (k_hs (ks st k))) as [h|] eqn:Hh; [|simpl; discriminate].
-    rewrite set_core_plain. cbv zeta. unfold commit_ures.
+    unfold commit_ures. cbn [fst snd]. intros Hs. rewrite (set_core_ok _ _ _ _ _ _ Hs). unfold set_quiet.
+    rewrite (set_core_ok _ _ _ _ _ _ Hs) in Hs. unfold set_quiet in Hs. revert Hs.
     destruct (negb (validate _)); [simpl; discriminate|].
     destruct (is_lazy k); simpl; intros _; rewrite ks_set_same; simpl; rewrite h_get_put_same; reflexivity.
   - unfold step, with_handle, spec_pend, pend_of.
     destruct (h_get id (k_hs (ks st k))) as [h|] eqn:Hh; [|simpl; discriminate].
-    rewrite set_core_plain. cbv zeta. unfold commit_ures.
+    unfold commit_ures. cbn [fst snd]. intros Hs. rewrite (set_core_ok _ _ _ _ _ _ Hs). unfold set_quiet.
+    rewrite (set_core_ok _ _ _ _ _ _ Hs) in Hs. unfold set_quiet in Hs. revert Hs.
     destruct (negb (validate _)); [simpl; discriminate|].
     destruct (is_lazy k); simpl; intros _; rewrite ks_set_same; simpl; rewrite h_get_put_same; reflexivity.
   - unfold step, with_handle, spec_pend, pend_of.
     destruct (h_get id (k_hs (ks st k))) as [h|] eqn:Hh; [|simpl; discriminate].
-    unfold sync_core, commit_ures. destruct (is_nil (h_pend h)) eqn:E; simpl; intros _; rewrite ks_set_same; simpl;
+    unfold commit_ures. cbn [fst snd]. intros Hs. rewrite (sync_core_ok _ _ _ _ _ Hs). unfold sync_quiet.
+    destruct (is_nil (h_pend h)) eqn:E; simpl; rewrite ks_set_same; simpl;
       rewrite h_get_put_same; simpl; [apply is_nil_true in E; exact E|reflexivity].
 Qed.
